@@ -71,6 +71,12 @@ func (g *gen) updateOptCases(n int) {
 	pool := []string{"title", "normal", "start_time", "id", "description"}
 	for i := 0; i < n; i++ {
 		initial := g.initial()
+		if len(initial) == 0 && g.r.Chance(70) { // mostly a non-empty store
+			initial = []hmode{{ID: "a", Title: "t1", Normal: g.r.Bool()}, {ID: "c", Title: "t2"}}
+			if g.r.Bool() {
+				initial = append(initial, hmode{ID: "d", Start: func() *int64 { v := int64(3); return &v }()})
+			}
+		}
 		pbs := make([]*traits.ElectricMode, len(initial))
 		for j, m := range initial {
 			pbs[j] = m.pb()
@@ -80,6 +86,9 @@ func (g *gen) updateOptCases(n int) {
 		before := observeKeyed(model, &stray)
 		ids := []string{"a", "b", "c", "d", "x", "x"}
 		body := g.modeBody(ids[g.r.Intn(len(ids))])
+		if len(initial) > 0 && g.r.Chance(55) { // address a stored mode
+			body.ID = initial[g.r.Intn(len(initial))].ID
+		}
 		if g.r.Chance(2) {
 			body.ID = ""
 		}
